@@ -154,6 +154,11 @@ func (g *serverGroup) validate() (err error) {
 func (srvGrps serverGroups) collectSessTicketPaths() (paths []string) {
 	set := container.NewSortedSliceSet[string]()
 	for _, g := range srvGrps {
+		if g.TLS == nil {
+			// A group without encrypted servers has no TLS settings.
+			continue
+		}
+
 		for _, k := range g.TLS.SessionKeys {
 			set.Add(k)
 		}
